@@ -23,6 +23,8 @@ static MODE: AtomicUsize = AtomicUsize::new(OFF);
 static mut TRACKED: [(usize, usize); MAXB] = [(0, 0); MAXB];
 static TRACK_N: AtomicUsize = AtomicUsize::new(0);
 static mut FREED: [(usize, usize); MAXB] = [(0, 0); MAXB];
+/// did the scan of the k-th freed block find a secret pattern?
+static mut FREED_HIT: [bool; MAXB] = [false; MAXB];
 static FREED_N: AtomicUsize = AtomicUsize::new(0);
 static mut PATTERNS: [[u8; PLEN]; MAXP] = [[0; PLEN]; MAXP];
 static mut PAT_LEN: [usize; MAXP] = [0; MAXP];
@@ -48,10 +50,13 @@ unsafe impl GlobalAlloc for MonAlloc {
     }
     unsafe fn dealloc(&self, p: *mut u8, l: Layout) {
         if MODE.load(SeqCst) == ARMED {
-            unsafe { scan_raw(p, l.size()) };
+            let h = unsafe { scan_raw(p, l.size()) };
             let n = FREED_N.load(SeqCst);
             if n < MAXB {
-                unsafe { FREED[n] = (p as usize, l.size()) };
+                unsafe {
+                    FREED[n] = (p as usize, l.size());
+                    FREED_HIT[n] = h > 0;
+                }
                 FREED_N.store(n + 1, SeqCst);
             }
         }
@@ -158,4 +163,16 @@ pub fn tracked() -> ([(usize, usize); MAXB], usize) {
 #[allow(static_mut_refs)]
 pub fn freed() -> ([(usize, usize); MAXB], usize) {
     unsafe { (FREED, FREED_N.load(SeqCst)) }
+}
+/// verdict for one block that was live when the allocator was armed: Some(hit) for the *first* time that address was
+/// freed afterwards (later frees of the same address belong to other, re-allocated blocks), None if it never was
+#[allow(static_mut_refs)]
+pub fn first_free_of(ptr: usize) -> Option<bool> {
+    let n = FREED_N.load(SeqCst);
+    for k in 0..n {
+        if unsafe { FREED[k].0 } == ptr {
+            return Some(unsafe { FREED_HIT[k] });
+        }
+    }
+    None
 }
